@@ -153,6 +153,9 @@ theorem ibNewEnd_spec {sz : Nat} (h : sz < M64) : ibNewEnd 0 sz = sz := by
 theorem ibCount_spec (c n : Nat) : ibCount c n = u64 (c + n) := by
   unfold ibCount; exact Eq.refl _
 
+theorem isSetStreamRdbuf_spec : isSetStreamRdbuf = true := by unfold isSetStreamRdbuf; exact Eq.refl _
+theorem osSetStreamRdbuf_spec : osSetStreamRdbuf = true := by unfold osSetStreamRdbuf; exact Eq.refl _
+
 /-! ### lists -/
 
 theorem zeros_length (n : Nat) : (zeros n).length = n := by simp [zeros]
